@@ -345,7 +345,7 @@ class ConcDomain(Domain):
             n = it.rvalue(args[0], fr)
             elem = "int" if "<int[]>" in callee.replace(" ", "") else "double"
             return self.new_array("heap", n, elem)
-        if base in ("std::copy",) and len(args) == 3:
+        if base in ("std::copy", "std::move") and len(args) == 3:
             a, b, c = (it.rvalue(x, fr) for x in args)
             if isinstance(a, PtrInto) and isinstance(b, PtrInto) and isinstance(c, PtrInto):
                 for i in range(b.off - a.off):
